@@ -32,6 +32,8 @@ HDRS = ["h.h", "g.h", "k.h"]
 FLAGS = ["F0", "F1", "F2"]
 VALS = ["V0", "V1"]
 PMACS = ["H0"]
+FWD = ["f.h", "w.h"]                # single-node files (forwarding headers)
+FWD_MACS = ["W0", "W1"]            # defined only by a single-node file, always with the same value
 TUNE = ["T0", "T1", "T2"]          # defined / undefined only by compiled files, tested by other compiled files and shared headers
 MAINS = [["src", "a.c"], ["src", "b.c"], ["src", "sub", "c.c"], ["inc1", "d.c"]]
 PLATFORMS = ["P0", "P1", "P2", "P3"]
@@ -153,6 +155,26 @@ def gen_files(rng, wild=False, prefix=(), outside=None):
             elif style < 0.65:
                 body = [["Once"]] + body
             files[pstr(p)] = [p, normalise(body)]
+    # single-node files: a header that is ONLY `#include "other.h"`, only `#define W v`, only `#undef X`,
+    # only `#pragma once`, or only one block of code - typically a forwarding header every command reaches
+    fwd = []
+    for wi, wname in enumerate(rng.sample(FWD, rng.choice([0, 1, 1, 2]))):
+        kind = rng.choice(["inc", "inc", "inc", "def", "def", "undef", "once", "code"])
+        if kind == "inc":
+            line = ["Inc", [rng.choice(["Q", "Q", "A"]), rng.choice(names)]]
+        elif kind == "def":
+            line = ["Def", FWD_MACS[wi], 1]
+        elif kind == "undef":
+            line = ["Undef", rng.choice(FLAGS + TUNE + VALS)]
+        elif kind == "once":
+            line = ["Once"]
+        else:
+            line = ["Code"]
+        places = [prefix + ["src"]] + [prefix + d for d in rng.sample(DIRS[1:], rng.randint(0, 2))]
+        for d in places:
+            files[pstr(d + [wname])] = [d + [wname], [list(line)]]
+        fwd.append([wname])
+    names = names + fwd
     mains = [prefix + m for m in rng.sample(MAINS, rng.randint(2, 4))]
     if outside is not None and rng.random() < 0.35:
         mains.append(list(outside) + ["ext", "e.c"])       # a compiled file outside the code-base directory
@@ -182,6 +204,15 @@ def gen_files(rng, wild=False, prefix=(), outside=None):
         k = rng.choice([0, 0, 1, len(body)])
         body = body[:k] + own + body[k:] if parse_ok(body[:k]) else own + body
         body = rng.choice([tests + body, body + tests])
+        if fwd and rng.random() < 0.75:
+            # reach a single-node file early and test, further down, what it (or what it forwards to) provides
+            w = rng.choice(fwd)
+            body = [["Inc", [rng.choice(["Q", "Q", "A"]), w]]] + body
+            for wm in FWD_MACS:
+                if rng.random() < 0.6:
+                    body += [["If", ["Defd", wm]], ["Code"], ["Else"], ["Code"], ["Endif"]]
+            for f in rng.sample(FLAGS + VALS, 2):
+                body += [["If", ["Defd", f]], ["Code"], ["Endif"]]
         files[pstr(m)] = [m, normalise(body)]
     return sorted(files.values(), key=lambda f: f[0]), mains, names
 
